@@ -468,6 +468,23 @@ func (s *stdioTransport) readNextLine(ctx context.Context, reader *bufio.Reader)
 	}
 }
 
+// errorReplyWithoutID is the answer to input whose id could not be determined: JSON-RPC 2.0
+// requires the id member to be present and null (JSONRPCError omits a nil id).
+func errorReplyWithoutID(code int, message string) interface{} {
+	var reply struct {
+		JSONRPC string      `json:"jsonrpc"`
+		ID      interface{} `json:"id"`
+		Error   struct {
+			Code    int    `json:"code"`
+			Message string `json:"message"`
+		} `json:"error"`
+	}
+	reply.JSONRPC = JSONRPCVersion
+	reply.Error.Code = code
+	reply.Error.Message = message
+	return reply
+}
+
 // processMessage processes a single JSON-RPC message.
 func (s *stdioTransport) processMessage(ctx context.Context, line string, writer io.Writer) error {
 	line = strings.TrimSpace(line)
@@ -479,13 +496,23 @@ func (s *stdioTransport) processMessage(ctx context.Context, line string, writer
 	if err := json.Unmarshal([]byte(line), &rawMessage); err != nil {
 		s.logger.Errorf("Invalid JSON received: %v", err)
 		// Tell the peer instead of dropping the line silently (JSON-RPC 2.0 parse error).
-		return s.writeResponse(newJSONRPCErrorResponse(nil, ErrCodeParse, "Parse error", nil), writer)
+		return s.writeResponse(errorReplyWithoutID(ErrCodeParse, "Parse error"), writer)
 	}
 
 	msgType, err := parseJSONRPCMessageType(rawMessage)
 	if err != nil {
 		s.logger.Errorf("Error parsing message type: %v", err)
-		return s.writeResponse(newJSONRPCErrorResponse(nil, ErrCodeInvalidRequest, "Invalid Request", nil), writer)
+		// A malformed answer of the peer (it has a result or an error member) is not answered:
+		// two endpoints answering each other's error replies would never stop.
+		var probe map[string]json.RawMessage
+		if json.Unmarshal(rawMessage, &probe) == nil {
+			_, hasResult := probe["result"]
+			_, hasError := probe["error"]
+			if hasResult || hasError {
+				return nil
+			}
+		}
+		return s.writeResponse(errorReplyWithoutID(ErrCodeInvalidRequest, "Invalid Request"), writer)
 	}
 
 	sessionCtx := setSessionToContext(ctx, s.session)
